@@ -25,6 +25,20 @@ from workerloop import WorkerExecutor, loop_heads, _succ, _check
 EVAL_EVENTS = ("visit", "condition", "actions", "properties_iter", "push_job", "within_boundary")
 
 
+def find_helpers(mir_text, name):
+    """non-closure functions of the checker's impl blocks (followed interprocedurally when check_block calls them)"""
+    res = {}
+    for f in split_functions(mir_text):
+        hdr = f.split("\n", 1)[0]
+        m = re.match(rf"^fn (?:checker::)?{name}::<impl at src/checker/{name}\.rs[^>]*>::(\w+)\(", hdr)
+        if m and m.group(1) not in ("check_block", "spawn"):
+            res[m.group(1)] = f
+        m = re.match(rf"^fn (?:checker::)?{name}::<impl at src/checker/{name}\.rs[^>]*>::(check_block::\{{closure#\d+\}})\(", hdr)
+        if m:
+            res[m.group(1)] = f
+    return res
+
+
 def find_check_blocks(mir_text):
     res = {}
     for f in split_functions(mir_text):
@@ -54,7 +68,7 @@ class BlockExecutor(WorkerExecutor):
                     or (p[0] == "field" and v[0] not in ("struct", "opt_payload", "uninit")):
                 key = ("proj", c, p)
                 if key not in st.handles:
-                    st.handles[key] = st.alloc(("opaque", "proj"))
+                    st.handles[key] = st.alloc(("opaque", f"proj#{next(self.fresh)}"))
                 c = st.handles[key]
                 continue
             if p[0] == "deref":
@@ -149,7 +163,7 @@ class BlockExecutor(WorkerExecutor):
                 st.pc.append(d >= 1)
                 cells.append((i, st.alloc(I(d))))
             else:
-                cells.append((i, st.alloc(("opaque", ty[:30]))))
+                cells.append((i, st.alloc(("opaque", f"job.{i}#{next(self.fresh)}"))))
         return ("struct", tuple(cells)), d
 
     def call(self, st, body, t):
@@ -159,6 +173,43 @@ class BlockExecutor(WorkerExecutor):
         dst_ty = body.locals_ty.get(dst.local) if dst is not None and not dst.proj else None
         tcs = [self._target_cell(st, a) for a in args]
 
+        mo = re.search(r"Option::<.*?>::(is_some_and|is_none_or|map_or)::<(?:bool, )?(\{closure@[^}]*\})>$", f)
+        if mo and args and args[0][0] == "opt":
+            # Option combinators with a closure of this function: the closure body is executed
+            # symbolically on the payload (no side effects expected) and folded into one term
+            which, span = mo.group(1), mo.group(2)
+            cb = next((b for b in self.bodies.values() if b.text.split("\n", 1)[0].find(f"_1: {span}") >= 0), None)
+            if cb is not None:
+                opt = args[0]
+                clo = args[-1]
+                sub = st.clone()
+                n0 = len(sub.pc)
+                sub.frames, sub.events = [], []
+                sub.locals = {cb.params[0]: sub.alloc(clo), cb.params[1]: sub.alloc(sub.heap[opt[2]])}
+                saved = (self.stop_blocks, self.loop_havoc)
+                self.stop_blocks, self.loop_havoc = set(), {}
+                try:
+                    outs = self.run(cb, sub, 0)
+                finally:
+                    self.stop_blocks, self.loop_havoc = saved
+                    st.body_name = Executor.short(body)
+                terms = []
+                for o in outs:
+                    if o.kind != "return" or o.info.get("ret", ("?",))[0] != "bool" or o.st.events:
+                        raise Unsupported(f"closure passed to Option::{which} is not a pure predicate")
+                    terms.append(z3.And(*(o.st.pc[n0:] + [o.info["ret"][1]])))
+                r = z3.Or(*terms) if terms else z3.BoolVal(False)
+                if which == "is_some_and":
+                    return B(z3.And(opt[1], r))
+                if which == "is_none_or":
+                    return B(z3.Or(z3.Not(opt[1]), r))
+                dflt = args[1]
+                if dflt[0] != "bool":
+                    raise Unsupported("map_or with a non-boolean default")
+                return B(z3.If(opt[1], r, dflt[1]))
+        mh = re.search(r"(?:BfsChecker|DfsChecker|Self)::<.*?>::(\w+)$", f)
+        if mh and mh.group(1) in self.bodies and mh.group(1) not in ("check_block", "spawn") and len(st.frames) < 3:
+            return ("enter", mh.group(1), args)
         if re.match(r"^(move|copy) _\d+$", f):
             st.events.append(("condition",))
             return self._fresh_by_type(st, dst_ty, "cond")
@@ -170,7 +221,7 @@ class BlockExecutor(WorkerExecutor):
             op = mq.group(1)
             if op.startswith("pop"):
                 job, d = self._job(st)
-                st.events.append(("pop_job", d, op))
+                st.events.append(("pop_job", d, op, tuple(st.heap[c2] for _, c2 in job[1])))
                 st.events.append(("pop_some", v[1] > 0))
                 st.heap[c] = ("deque", z3.If(v[1] > 0, v[1] - 1, 0))
                 return ("opt", v[1] > 0, st.alloc(job))
@@ -202,6 +253,23 @@ class BlockExecutor(WorkerExecutor):
             return B({"lt": a[1] < b[1], "le": a[1] <= b[1], "gt": a[1] > b[1], "ge": a[1] >= b[1]}[mm.group(1)])
         if re.search(r"NonZero::<usize>::get$", f) and args[0][0] != "int":
             raise Unsupported("NonZero::get of a non-integer")
+        if re.search(r"DashMap::<&str, .*>::contains_key::<", f):
+            b = self.fresh_bool("discovered")
+            st.events.append(("contains_key", b))
+            return B(b)
+        if re.search(r"DashMap::<&str, .*>::insert$", f):
+            st.events.append(("discover", args[2] if len(args) > 2 else None))
+            return ("opaque", "old")
+        if re.search(r"IdSet::contains$", f):
+            st.events.append(("ebits_contains",))
+            return B(self.fresh_bool("ebit"))
+        if re.search(r"VacantEntry::<.*>::insert$", f):
+            pv = args[1]
+            st.events.append(("parent", st.heap.get(pv[2]) if pv[0] == "opt" else pv, pv[1] if pv[0] == "opt" else None))
+            return ("opaque", "refmut")
+        if re.search(r"DashMap::<NonZero<u64>, .*>::(insert|remove|alter|get_mut)$|OccupiedEntry::<.*>::(insert|remove|replace_entry)", f):
+            st.events.append(("generated_write", f))
+            return ("opaque", "w")
         if re.search(r"CheckerVisitor<M>>::visit$", f):
             st.events.append(("visit",))
             return UNIT
@@ -268,9 +336,16 @@ def _assigned(body, blocks):
     return ls
 
 
-def obligations(name, text):
+def obligations(name, text, fifo=False, witness=False, helpers=None):
     body = parse_body(text)
-    ex = BlockExecutor({Executor.short(body): body})
+    bodies = {Executor.short(body): body}
+    for hname, htext in (helpers or {}).items():
+        if hname not in bodies:
+            try:
+                bodies[hname] = parse_body(htext)
+            except Unsupported:
+                pass
+    ex = BlockExecutor(bodies)
     heads = sorted(h for h in loop_heads(body) if not body.blocks[h].cleanup)
     if not heads:
         raise Unsupported(f"{name} check_block: no loop found")
@@ -374,10 +449,52 @@ def obligations(name, text):
             r, m = _check(base, g, tgt_some, d > tgt)
             add(f"{tagp}: an evaluated job is not deeper than target_max_depth", r, **({"witness": wit(m)} if m is not None else {}))
             for e in st.events:
+                if fifo and e[0] in ("pop_job", "push_job"):
+                    want = "pop_back" if e[0] == "pop_job" else "push_front"
+                    r, _ = (z3.unsat, None) if e[2] == want else _check(base, g)
+                    add(f"{tagp}: first-in first-out queue discipline: jobs are taken with pop_back and successors queued with push_front ({e[0]} uses {e[2]})", r)
+                if witness and e[0] == "generated_write":
+                    r, _ = _check(base, g)
+                    add(f"{tagp}: the parent pointer of an already generated state is never rewritten ({e[1][:60]})", r)
+                if witness and e[0] == "parent":
+                    fp_ok = any(e[1] == comp for comp in pops[0][3])
+                    r, _ = (z3.unsat, None) if fp_ok and (e[2] is None or z3.is_true(z3.simplify(e[2]))) else _check(base, g)
+                    add(f"{tagp}: a newly generated state gets the job being evaluated as its parent", r)
                 if e[0] == "push_job":
                     n_push += 1
                     r, m = _check(base, g, e[1] != d + 1)
                     add(f"{tagp}: a successor is queued with the depth of its predecessor plus one", r, **({"witness": dict(wit(m), pushed_depth=m.eval(e[1], model_completion=True).as_long())} if m is not None else {}))
+    if witness:
+        n_disc = 0
+        for i, o in enumerate(outs):
+            if o.kind == "panic":
+                continue
+            st = o.st
+            g = z3.And(*st.pc) if st.pc else z3.BoolVal(True)
+            pops = [e for e in st.events if e[0] == "pop_job"]
+            if not pops:
+                continue
+            tagp = f"path {i}->{o.kind}"
+            last_ck, last_kind = None, None
+            for e in st.events:
+                if e[0] == "contains_key":
+                    last_ck, last_kind = e[1], "ck"
+                elif e[0] == "ebits_contains":
+                    last_kind = "ebits"
+                elif e[0] == "discover":
+                    fp_ok = any(e[1] == comp for comp in pops[0][3])
+                    r, _ = (z3.unsat, None) if fp_ok else _check(base, g)
+                    add(f"{tagp}: a discovery is recorded with the fingerprint of the job being evaluated", r)
+                    if last_kind == "ck":
+                        n_disc += 1
+                        r, _ = _check(base, g, last_ck)
+                        add(f"{tagp}: an always/sometimes discovery is recorded only while the property has none yet (the first witness wins)", r)
+                    elif last_kind != "ebits":
+                        n_disc += 1
+                        r, _ = _check(base, g)
+                        add(f"{tagp}: an always/sometimes discovery is recorded only while the property has none yet (the first witness wins)", r)
+        if n_disc == 0:
+            raise Unsupported(f"{name} check_block: no discovery site recognised")
     if n_eval == 0 or n_skip == 0 or n_push == 0:
         raise Unsupported(f"{name} check_block: shape not recognised (evaluating paths {n_eval}, skipping paths {n_skip}, pushes {n_push})")
     info = {"function": body.name, "blocks": len(body.blocks), "main_loop": f"bb{outer}", "inner_loops_havocked": [f"bb{h}" for h in heads if h != outer], "round_paths": len(outs),
@@ -391,3 +508,42 @@ def _popped_some(st):
         if e[0] == "pop_some":
             return e[1]
     return z3.BoolVal(True)
+
+
+def initial_depth(name, mir_text):
+    """The closure(s) of `spawn` that build the initial jobs: the depth component is 1."""
+    res = []
+    for f in split_functions(mir_text):
+        hdr = f.split("\n", 1)[0]
+        if not re.match(rf"^fn (?:checker::)?{name}::<impl at src/checker/{name}\.rs[^>]*>::spawn::\{{closure#\d+\}}\(", hdr):
+            continue
+        ret = hdr.rsplit(" -> ", 1)[-1].rstrip(" {")
+        if not (ret.startswith("(") and "NonZero<usize>" in ret):
+            continue
+        comps = [x.strip() for x in split_top(ret[1:_matching(ret, 0)])]
+        idx = [i for i, x in enumerate(comps) if x.replace("std::num::", "") == "NonZero<usize>"]
+        if len(idx) != 1:
+            continue
+        body = parse_body(f)
+        ex = BlockExecutor({Executor.short(body): body})
+        ex.job_types, ex.depth_idx = comps, idx[0]
+        st = State()
+        for no in body.params:
+            st.locals[no] = st.alloc(("ref", st.alloc(("opaque", "env"))) if no == 1 else ("opaque", "state"))
+        outs = [o for o in ex.run(body, st, 0) if o.kind == "return"]
+        if not outs:
+            raise Unsupported(f"{name} spawn closure building the initial jobs: no returning path")
+        for o in outs:
+            rv = o.info.get("ret")
+            if rv is None or rv[0] != "struct":
+                raise Unsupported("initial job is not a tuple")
+            dv = o.st.heap[dict(rv[1])[idx[0]]]
+            if dv[0] != "int":
+                raise Unsupported("depth of the initial job is not an integer")
+            g = z3.And(*o.st.pc) if o.st.pc else z3.BoolVal(True)
+            r, m = _check([], g, dv[1] != 1)
+            res.append({"obligation": f"{name} spawn: an initial state is queued with depth 1", "result": "unsat" if r == z3.unsat else ("sat" if r == z3.sat else str(r)),
+                        **({"witness": {"checker": name, "initial_depth": m.eval(dv[1], model_completion=True).as_long()}} if m is not None else {})})
+    if not res:
+        raise Unsupported(f"{name}: the closure of spawn() that builds the initial jobs was not found")
+    return res
